@@ -65,7 +65,7 @@ def Bar.draw (b : Bar) (force : Bool) (now : Nat) : Bar × List TOp :=
     let lines := if b.status = .doneHidden then [] else formatState b
     let ds := { tt.ds with lines := lines }
     let (ops, llc) := drawToTerm tt.fx ds tt.W tt.H tt.llc
-    ({ b with target := some { tt with ds := ds, llc := llc } }, ops)
+    ({ b with target := some { tt with ds := ds.after tt.fx tt.W tt.H tt.llc, llc := llc } }, ops)
 
 /-- `tick_inner` (no steady ticker installed) -/
 def Bar.tickInner (b : Bar) (now : Nat) : Bar × List TOp :=
@@ -121,14 +121,14 @@ def Bar.step (b : Bar) (now : Nat) : BarOp → Bar × List TOp
       let lines := toLines t ++ (if b.status = .doneHidden then [] else formatState b)
       let ds := { tt.ds with lines := lines }
       let (ops, llc) := drawToTerm tt.fx ds tt.W tt.H tt.llc
-      ({ b with target := some { tt with ds := ds, llc := llc } }, ops)
+      ({ b with target := some { tt with ds := ds.after tt.fx tt.W tt.H tt.llc, llc := llc } }, ops)
   | .suspend out =>
     match b.target with
     | none => (b, [])
     | some tt =>
       let ds := { tt.ds with lines := [] }
       let (ops1, llc) := drawToTerm tt.fx ds tt.W tt.H tt.llc
-      let b := { b with target := some { tt with ds := ds, llc := llc } }
+      let b := { b with target := some { tt with ds := ds.after tt.fx tt.W tt.H tt.llc, llc := llc } }
       let mid := out.map TOp.writeLine
       let (b, ops2) := b.draw true now
       (b, ops1 ++ mid ++ ops2)
